@@ -275,8 +275,10 @@ def gen_word(rng):
             feat += "+surrounding-text"
         return {"kind": "range", "text": pre + body + suf, "feat": feat}
     if k < 0.68:
-        t = rng.choice(["~", "~/x", "~/a/b", "a~", "x/~", "a~/b", "=~", "~/"])
+        t = rng.choice(["~", "~/x", "~/a/b", "a~", "x/~", "a~/b", "=~", "~/", "~/n.txt~", "~/a~b", "~/x/~", "~/~"])
         feat = "leading" if (t == "~" or t.startswith("~/")) else "negative-not-leading"
+        if "~" in t[1:] and feat == "leading":
+            feat = "leading+second-tilde-later-in-the-word"
         return {"kind": "tilde", "text": t, "feat": feat}
     if k < 0.88:
         t = rng.choice(["*", "*.txt", "a*", "*.log", "sub/*", "*/x*", "*/*", "nomatch*", "*.none", "sub*/a", "a*a", "*b*"])
